@@ -681,4 +681,212 @@ theorem validExp_sound (Γ : Env) (ρ : Store) (hρ : StoreOk Γ ρ) (t : Ty) :
     | call id p => exact refOk_sound Γ ρ hρ _ hwf _ (by simpa [validExp] using hv) (by simpa [holeFree] using hh)
     | _ => simp [validExp] at hv
 
+
+/-! ### reference-free expressions: no filtering needed -/
+
+theorem refType_of_noRef (Γ : Env) (e : Exp) (h : e.hasRef = false) : refType Γ e = none := by
+  cases e <;> simp [Exp.hasRef] at h <;> simp [refType]
+
+theorem not_refOk_of_noRef (Γ : Env) (t : Ty) (e : Exp) (h : e.hasRef = false) : refOk Γ t e = false := by
+  simp [refOk, refType_of_noRef Γ e h]
+
+theorem Exps.hasRef_mem : ∀ {xs : Exps}, xs.hasRef = false → ∀ x ∈ xs.toList, x.hasRef = false
+  | .nil, _, x, h => by cases h
+  | .cons e r, hw, x, h => by
+    simp only [Exps.hasRef, Bool.or_eq_false_iff] at hw
+    simp only [Exps.toList, List.mem_cons] at h
+    rcases h with rfl | h
+    · exact hw.1
+    · exact Exps.hasRef_mem hw.2 x h
+
+theorem KVs.hasRef_mem : ∀ {kvs : KVs}, kvs.hasRef = false → ∀ kv ∈ kvs.toList, kv.2.hasRef = false
+  | .nil, _, kv, h => by cases h
+  | .cons k e r, hw, kv, h => by
+    simp only [KVs.hasRef, Bool.or_eq_false_iff] at hw
+    simp only [KVs.toList, List.mem_cons] at h
+    rcases h with rfl | h
+    · exact hw.1
+    · exact KVs.hasRef_mem hw.2 kv h
+
+/-- an accepted reference-free expression denotes a value that is valid as it
+stands (no filtering) -/
+theorem validExp_literal (Γ : Env) (ρ : Store) (t : Ty) :
+    t.wf = true → ∀ (e : Exp), e.wf = true → e.hasRef = false → validExp Γ t e = true →
+      ∃ v, eval Γ ρ e = some v ∧ valid t v = true := by
+  induction t using Ty.induct' with
+  | base b =>
+    intro _ e hwe hnr hv
+    simp only [validExp] at hv
+    cases e with
+    | null => exact ⟨.null, rfl, valid_null _⟩
+    | int v =>
+      refine ⟨_, rfl, ?_⟩
+      simp only [Exp.wf] at hwe
+      cases b <;> simp [validBase] at hv <;> simp [valid, check, checkBase, hwe]
+    | float m x =>
+      refine ⟨_, rfl, ?_⟩
+      cases b <;> simp [validBase] at hv
+      · simp only [floatIsInt64] at hv
+        cases hi : (Num.flt m x).intValue? with
+        | none => simp [hi] at hv
+        | some i =>
+          simp only [hi] at hv
+          simp [litFloat, hi, hv, valid, check, checkBase]
+      · simp [valid, check, checkBase]
+    | str s =>
+      refine ⟨_, rfl, ?_⟩
+      cases b <;> simp [validBase] at hv <;> simp [valid, check, checkBase]
+    | bool x =>
+      refine ⟨_, rfl, ?_⟩
+      cases b <;> simp [validBase] at hv <;> simp [valid, check, checkBase]
+    | arr xs => simp [validBase] at hv
+    | map isStruct kvs =>
+      simp only [validBase, Bool.and_eq_true, beq_iff_eq, Bool.not_eq_true'] at hv
+      obtain ⟨⟨rfl, _⟩, hnr'⟩ := hv
+      obtain ⟨vs, hvs⟩ := evalKV_of_noRef Γ ρ kvs hnr'
+      exact ⟨.obj vs, by simp [eval, hvs], by simp [valid, check, checkBase]⟩
+    | self id p => simp [Exp.hasRef] at hnr
+    | call id p => simp [Exp.hasRef] at hnr
+  | user n =>
+    intro hwf e hwe hnr hv
+    cases e with
+    | null => exact ⟨.null, rfl, valid_null _⟩
+    | str s => exact ⟨_, rfl, by simp [valid, check]⟩
+    | self id p => simp [Exp.hasRef] at hnr
+    | call id p => simp [Exp.hasRef] at hnr
+    | _ => simp [validExp] at hv
+  | arr t ih =>
+    intro hwf e hwe hnr hv
+    have ih := ih (by simpa [Ty.wf] using hwf)
+    cases e with
+    | null => exact ⟨.null, rfl, valid_null _⟩
+    | arr xs =>
+      simp only [validExp, List.all_eq_true] at hv
+      simp only [Exp.wf] at hwe
+      simp only [Exp.hasRef] at hnr
+      obtain ⟨vs, hvs, hall⟩ := evalL_spec Γ ρ (fun v => valid t v = true) xs
+        (fun x hx => ih x (Exps.wf_mem hwe x hx) (Exps.hasRef_mem hnr x hx) (hv x hx))
+      refine ⟨.arr vs, by simp [eval, hvs], ?_⟩
+      apply valid_of_shape
+      exact Shape.arr _ _ (fun y hy => shape_of_valid _ _ (hall y hy))
+    | self id p => simp [Exp.hasRef] at hnr
+    | call id p => simp [Exp.hasRef] at hnr
+    | _ => simp [validExp] at hv
+  | tmap t ih =>
+    intro hwf e hwe hnr hv
+    have ih := ih (by simpa [Ty.wf] using hwf)
+    cases e with
+    | null => exact ⟨.null, rfl, valid_null _⟩
+    | map isStruct kvs =>
+      cases isStruct with
+      | true => simp [validExp] at hv
+      | false =>
+        simp only [validExp, List.all_eq_true, Bool.and_eq_true] at hv
+        simp only [Exp.wf, Bool.and_eq_true] at hwe
+        simp only [Exp.hasRef] at hnr
+        have hev : ∀ kv ∈ kvs.toList, ∃ v, eval Γ ρ kv.2 = some v ∧ valid t v = true :=
+          fun kv hkv => ih kv.2 (KVs.wf_mem hwe.1 kv hkv) (KVs.hasRef_mem hnr kv hkv) (hv kv hkv).1
+        obtain ⟨vs, hvs⟩ := evalKV_some Γ ρ kvs (fun kv hkv => by
+          obtain ⟨v, h1, _⟩ := hev kv hkv; exact ⟨v, h1⟩)
+        refine ⟨.obj vs, by simp [eval, hvs], ?_⟩
+        apply valid_of_shape
+        refine Shape.tmap _ _ ?_ ?_
+        · intro kv hkv
+          obtain ⟨e, hme, hee⟩ := evalKV_mem Γ ρ kvs vs hvs kv hkv
+          obtain ⟨v, h1, h2⟩ := hev (kv.1, e) hme
+          simp only at h1
+          rw [hee] at h1
+          cases h1
+          exact shape_of_valid _ _ h2
+        · intro hd kv hkv
+          obtain ⟨e, hme, _⟩ := evalKV_mem Γ ρ kvs vs hvs kv hkv
+          have := (hv (kv.1, e) hme).2
+          simpa [hd] using this
+    | self id p => simp [Exp.hasRef] at hnr
+    | call id p => simp [Exp.hasRef] at hnr
+    | _ => simp [validExp] at hv
+  | struct n fs ih =>
+    intro hwf e hwe hnr hv
+    have hwf' := Fields.wf_iff.mp (by simpa [Ty.wf] using hwf)
+    cases e with
+    | null => exact ⟨.null, rfl, valid_null _⟩
+    | map isStruct kvs =>
+      simp only [validExp, Bool.and_eq_true, Bool.not_eq_true'] at hv
+      simp only [Exp.wf, Bool.and_eq_true, decide_eq_true_eq] at hwe
+      simp only [Exp.hasRef] at hnr
+      have hvf := (validFields_iff Γ fs kvs).mp hv.1
+      have hmember : ∀ k t, (k, t) ∈ fs.toList →
+          ∃ e v, kvs.get k = some e ∧ eval Γ ρ e = some v ∧ valid t v = true := by
+        intro k t hkt
+        obtain ⟨e, he, hve⟩ := hvf k t hkt
+        have hme := KVs.get_mem he
+        obtain ⟨v, h1, h2⟩ := ih k t hkt (hwf'.2 k t hkt) e (KVs.wf_mem hwe.1 (k, e) hme)
+          (KVs.hasRef_mem hnr (k, e) hme) hve
+        exact ⟨e, v, he, h1, h2⟩
+      obtain ⟨vs, hvs⟩ := evalKV_of_noRef Γ ρ kvs hnr
+      refine ⟨.obj vs, by simp [eval, hvs], ?_⟩
+      simp only [valid, check, beq_iff_eq, checkFields_ok_iff]
+      intro k t hkt
+      obtain ⟨e, v, he, h1, h2⟩ := hmember k t hkt
+      have hg := getKey_evalKV Γ ρ k kvs vs hvs
+      simp only [he] at hg
+      obtain ⟨v', h1', hgv⟩ := hg
+      rw [h1] at h1'
+      cases h1'
+      exact ⟨v, hgv, by simpa [valid] using h2⟩
+    | self id p => simp [Exp.hasRef] at hnr
+    | call id p => simp [Exp.hasRef] at hnr
+    | _ => simp [validExp] at hv
+
+/-! ### bindings and calls -/
+
+theorem lookup_mem {α : Type} : ∀ {l : List (Bytes × α)} {k : Bytes} {v : α},
+    l.lookup k = some v → (k, v) ∈ l
+  | [], _, _, h => by simp [List.lookup] at h
+  | (k', v') :: r, k, v, h => by
+    simp only [List.lookup] at h
+    by_cases hk : k = k'
+    · subst hk
+      simp at h
+      subst h
+      exact List.mem_cons_self
+    · have : (k == k') = false := by simpa using hk
+      simp only [this] at h
+      exact List.mem_cons_of_mem _ (lookup_mem h)
+
+/-- an accepted call binds every declared parameter, with a binding that is
+valid for the parameter's type -/
+theorem checkCall_bound (Γ : Env) (params : List (Bytes × Ty)) (binds : List (Bytes × Bind))
+    (h : validCall Γ params binds = true) (x : Bytes) (t : Ty) (hx : params.lookup x = some t) :
+    ∃ b, binds.lookup x = some b ∧ validBind Γ t b = true := by
+  simp only [validCall, checkCall] at h
+  split at h
+  · rename_i hc
+    simp only [Bool.and_eq_true, List.all_eq_true] at hc
+    obtain ⟨⟨h1, _⟩, h3⟩ := hc
+    have hb := h3 (x, t) (lookup_mem hx)
+    simp only at hb
+    cases hl : binds.lookup x with
+    | none => simp [hl] at hb
+    | some b =>
+      have := h1 (x, b) (lookup_mem hl)
+      simp only [hx] at this
+      exact ⟨b, rfl, this⟩
+  · simp at h
+
+/-- every binding of an accepted call names a declared parameter -/
+theorem checkCall_known (Γ : Env) (params : List (Bytes × Ty)) (binds : List (Bytes × Bind))
+    (h : validCall Γ params binds = true) (x : Bytes) (b : Bind) (hx : (x, b) ∈ binds) :
+    ∃ t, params.lookup x = some t ∧ validBind Γ t b = true := by
+  simp only [validCall, checkCall] at h
+  split at h
+  · rename_i hc
+    simp only [Bool.and_eq_true, List.all_eq_true] at hc
+    have := hc.1.1 (x, b) hx
+    simp only at this
+    cases hl : params.lookup x with
+    | none => simp [hl] at this
+    | some t => exact ⟨t, rfl, by simpa [hl] using this⟩
+  · simp at h
+
 end Martian.Typing
